@@ -121,11 +121,12 @@ func init() {
 			e.path.Choices = append(e.path.Choices, choiceRec{name, v})
 			return e.K(64, uint64(int64(v)))
 		},
-		H + "Bool": func(e *Engine, fn *ssa.Function, a []Val) Val { return e.freshVar(e.strArg(a[1]), 0) },
-		H + "U8":   func(e *Engine, fn *ssa.Function, a []Val) Val { return e.freshVar(e.strArg(a[1]), 8) },
-		H + "U16":  func(e *Engine, fn *ssa.Function, a []Val) Val { return e.freshVar(e.strArg(a[1]), 16) },
-		H + "U32":  func(e *Engine, fn *ssa.Function, a []Val) Val { return e.freshVar(e.strArg(a[1]), 32) },
-		H + "U64":  func(e *Engine, fn *ssa.Function, a []Val) Val { return e.freshVar(e.strArg(a[1]), 64) },
+		H + "Bool":     func(e *Engine, fn *ssa.Function, a []Val) Val { return e.freshVar(e.strArg(a[1]), 0) },
+		H + "Concrete": func(e *Engine, fn *ssa.Function, a []Val) Val { return e.KB(a[1].(*Term).IsConst()) },
+		H + "U8":       func(e *Engine, fn *ssa.Function, a []Val) Val { return e.freshVar(e.strArg(a[1]), 8) },
+		H + "U16":      func(e *Engine, fn *ssa.Function, a []Val) Val { return e.freshVar(e.strArg(a[1]), 16) },
+		H + "U32":      func(e *Engine, fn *ssa.Function, a []Val) Val { return e.freshVar(e.strArg(a[1]), 32) },
+		H + "U64":      func(e *Engine, fn *ssa.Function, a []Val) Val { return e.freshVar(e.strArg(a[1]), 64) },
 		H + "Bytes": func(e *Engine, fn *ssa.Function, a []Val) Val {
 			name := e.strArg(a[1])
 			nt := a[2].(*Term)
